@@ -61,6 +61,17 @@ def _float_denominators(expr: sympy.Expr) -> sympy.Expr:
     return expr
 
 
+INT_MAX = 2**31 - 1
+
+
+def _is_integer_arithmetic(expr: sympy.Expr) -> bool:
+    """Integer literals and (unevaluated) sums and products of them, e.g. -2, 2*3 or 1 + 2.
+    C evaluates these with int arithmetic"""
+    return expr.is_Integer or (
+        (expr.is_Add or expr.is_Mul) and all(_is_integer_arithmetic(arg) for arg in expr.args)
+    )
+
+
 class GotranCCodePrinter(C99CodePrinter):
     def __init__(self, *args, **kwargs):
         super().__init__(*args, **kwargs)
@@ -122,8 +133,12 @@ class GotranCCodePrinter(C99CodePrinter):
         else:
             # A conditional with integer values only is an int in C, e.g. '(x > 0) ? 1 : 0',
             # and dividing two of them is an integer division. Make the values doubles
+            # (also for values such as -2 or 2*3 that are kept as unevaluated integer arithmetic)
             expr = sympy.Piecewise(
-                *[(sympy.Float(e) if e.is_Integer else e, c) for e, c in expr.args],
+                *[
+                    (sympy.Float(e.doit()) if _is_integer_arithmetic(e) else e, c)
+                    for e, c in expr.args
+                ],
                 evaluate=False,
             )
             value = bool_to_int(super()._print_Piecewise(expr))
